@@ -84,7 +84,7 @@ def judge(case):
     doc = case['doc']
     out = []
     try:
-        text = json.dumps(D.to_json(doc, case.get('comment')))
+        text = json.dumps(D.to_json(doc, case.get('comment'), case.get('form')))
         fct = parse(text, bool(case.get('verbose')))
         want, got = D.expected(doc), D.unparse(fct)
         cont, what = D.first_difference(want, got)
@@ -187,6 +187,9 @@ def work(job):
             for own in (False, True) + (('odd',) if nnodes <= 3 else ()):
                 case = {'doc': shape_to_doc(forest, own)}
                 _one(case, part)
+                if nnodes <= 3 and own is True:
+                    for form in ('reversed', 'extra', 'reversed+extra'):
+                        _one(dict(case, form=form), part)
                 if k % 50021 == 1:
                     part.sample(case)
     elif kind == 'payload':
@@ -200,6 +203,9 @@ def work(job):
                     case['comment'] = 'c'
                 _one(case, part)
                 _one(dict(case, verbose=True), part)
+                # REPRESENTATION: the same document with the keys of every object reversed / with extra keys
+                for form in ('reversed', 'extra', 'reversed+extra'):
+                    _one(dict(case, form=form), part)
                 if k % 701 == 1:
                     part.sample(case)
     return part
